@@ -41,6 +41,41 @@ def canonical(lengths):
     return codes
 
 
+def huffman_decode_rows(ctx, rule="C15-a"):
+    """Row table of HuffmanDecoder::decode_next (shared with C11: a string literal with an EOS code is not a valid field section)."""
+    prog = ctx.prog
+    # ------------------------------------------------------------ C15-a walking the decode tables
+    # decode_next: end of input comes only from fetch_value (which checks the padding, C15-d); a code that leads to no table
+    # entry (the EOS code, RFC 7541 5.2) is an error, never a clean end; symbols and sub-tables are taken from the entry found
+    dn = ru.need(ctx, rule, P + "decode::HuffmanDecoder::decode_next")
+    if dn:
+        ps = [p for p in ru.all_paths(ctx, rule, dn, max_visits=1) if p.end == "return"]
+        ctx.floor(rule, "returning paths of decode_next", len(ps), 5)
+        seen = set()
+        for p in ps:
+            fv = p.outcomes("HuffmanDecoder::fetch_value")       # the same chain for `match`, `?` and `.ok_or_else(..)?`
+            got = p.outcomes("::get")
+            sh = p.ret_shape()
+            if fv[:1] == ["Err"]:
+                row, ok = "fetch_value Err", (sh.startswith("Err(") or sh.startswith("Residual(")) and "fetch_value" in pa.vfmt(p.ret)
+            elif fv[:2] == ["Ok", "None"]:
+                row, ok = "fetch_value Ok(None)", sh == "Ok(None)"
+            elif got[:1] == ["None"]:
+                row, ok = "no table entry", sh.startswith("Err(") or sh.startswith("Residual(")
+            elif got[:2] == ["Some", "Sym"]:
+                row, ok = "symbol", sh.startswith("Ok(Some(") and "<Sym>.0" in pa.vfmt(p.ret)
+            elif got[:2] == ["Some", "Partial"]:
+                row, ok = "sub-table", sh == "call:decode_next" and "<Partial>.0" in pa.vfmt(p.ret)
+            else:
+                row, ok = "unrecognised (%s / %s)" % (fv, got), False
+            seen.add(row)
+            ctx.check(ok, rule, dn.key, "decode_next row: %s" % row,
+                      "decode_next returns %s on the `%s` path: the only clean end of a Huffman string is fetch_value's Ok(None) (input exhausted, "
+                      "padding checked); a code without a table entry is the EOS code and must be refused (RFC 7541 5.2)" % (sh, row), "", None, p.describe())
+        ctx.check(seen >= {"fetch_value Err", "fetch_value Ok(None)", "no table entry", "symbol", "sub-table"}, rule, dn.key, "all five rows present", "rows: %s" % sorted(seen), "")
+
+
+
 def run(ctx):
     prog = ctx.prog
     consts = prog.consts
@@ -250,6 +285,8 @@ def run(ctx):
         ctx.check(c is not None and 1 <= c <= 8, "C15-c", body.key, "literal string prefix size in 1..8",
                   "string prefix size %s is outside 1..8 (size - 1 underflows or the integer codec's assert fires)" % c, str(c), body.loc(t))
     ctx.floor("C15-c", "prefix_string call sites", n, 12)
+
+    huffman_decode_rows(ctx, "C15-a")
 
     # ------------------------------------------------------------ C15-c entry points
     sd = ru.need(ctx, "C15-c", P + "decode")
